@@ -251,6 +251,8 @@ class CacheCoherence:
         self.ctx, self.cls, self.F, self.Fsrc = ctx, cls, field_mangled, field_src
         self.trusted_updates = set(trusted_updates)     # methods whose incremental cache update is verified elsewhere
         self.updates = {}
+        self._consts = {}          # string constants bound to the parameters of the helper being inlined
+        self._inline_depth = 0
         self.exempt_isometries = bool(filler) and filler_is_isometry_invariant(ctx, filler, field_src)
         self.composite = is_composite(ctx, cls)
         self.O = ownership(ctx)
@@ -297,6 +299,12 @@ class CacheCoherence:
         selfn = fn.params[0]
         evs = [e for e in self.O.events.get(fn.qname, []) if e["node"] is node and e["param"] == selfn
                and self.is_derived_field(e["field"])]
+        # getattr(x, method)(...) inside a helper that is being inlined with method = "<constant>": only that method
+        if isinstance(node, ast.Call) and isinstance(node.func, ast.Call) and isinstance(node.func.func, ast.Name) \
+                and node.func.func.id == "getattr" and len(node.func.args) >= 2 and isinstance(node.func.args[1], ast.Name) \
+                and node.func.args[1].id in self._consts:
+            want = self._consts[node.func.args[1].id]
+            evs = [e for e in evs if e["via"] is None or e["via"][0] is None or e["via"][0].rsplit(".", 1)[-1] == want]
         inf = self.ctx.typer.of(fn)
         tgs = [t for t in inf.targets(node) if t.qname in self.kmethods]
         if tgs and self._receiver_is_self(node, selfn):
@@ -314,6 +322,20 @@ class CacheCoherence:
         if w:
             return ("W", sorted(set(w)))
         return None
+
+    def _string_args(self, call, callee):
+        """{parameter: constant} for string literals passed to parameters of `callee` that only ever receive literals"""
+        if not isinstance(call, ast.Call):
+            return {}
+        known = self.ctx.typer.param_string_constants()
+        ps = [a.arg for a in callee.node.args.posonlyargs + callee.node.args.args]
+        if callee.kind in ("method", "getter", "setter", "class") and isinstance(call.func, ast.Attribute) and ps:
+            ps = ps[1:]
+        out = {}
+        for pn, a in list(zip(ps, call.args)) + [(k.arg, k.value) for k in call.keywords if k.arg in ps]:
+            if isinstance(a, ast.Constant) and isinstance(a.value, str) and (callee.qname, pn) in known:
+                out[pn] = a.value
+        return out
 
     @staticmethod
     def _receiver_is_self(node, selfn):
@@ -393,6 +415,19 @@ class CacheCoherence:
             if ev[0] == "call":
                 new = set()
                 for q in ev[1]:
+                    bound = self._string_args(node, self.kmethods[q])
+                    if bound and self._inline_depth < 3:
+                        # a helper that dispatches on a string argument (`self.__apply("scale", ..)`): interpret its
+                        # body for this constant instead of using its all-constants summary
+                        saved, self._consts = self._consts, bound
+                        self._inline_depth += 1
+                        try:
+                            for s in states:
+                                new |= self.run_method(self.kmethods[q], {s})
+                        finally:
+                            self._consts = saved
+                            self._inline_depth -= 1
+                        continue
                     for s in states:
                         new |= self.tables[q][s]
                 states = new
